@@ -11,6 +11,16 @@
    error of the Go runtime such as "concurrent map writes", a panic in a goroutine of the service),
    this is the observed outcome of the scenario ([c_crashed]): no request of it has returned.
 
+   A forwarded registration (KFwd) or a registration round (KReg) may be "gated" too: the harness's relay then
+   sits on the POST of its registrations (if the request has any to hand over) until released.  Such a request
+   is held OUTSIDE the configuration lock (step MRelay of its program): the harness's settling does not accept
+   that anything waits for it, so a refresh or a request that does not return while only relay-held requests
+   are outstanding is a settle that ran into the watchdog ([c_timeouts]), which [P_b] forbids.
+
+   Builder bid requests may ask for the same bid repeatedly (harness input field "key"); the generators use a
+   key only while no request with it can have obtained a bid, so the answers come from the configuration (the
+   bid cache is not modelled).
+
    A command may stand for a whole series of requests made one after the other by one goroutine for
    distinct validators with the same settings (harness input field "many"), and a group of commands may
    be issued without settling in between (field "nosettle": the requests overlap; the generators never
@@ -173,6 +183,12 @@ Definition P_b (c : case) : bool :=
   (negb (gates_released (c_cmds c)) ||
    (forallb o_fin (c_obs c)                                  (* every request returns *)
     && c_lock_free c                                         (* no lock left held, no writer wedged *)
+    && (c_timeouts c =? 0)                                   (* ... and returns without waiting for anything but the lock's holders:
+                                                                after every command the requests all returned or were held by
+                                                                the harness (account gate inside the read lock, relay sitting on
+                                                                the POST outside it), or a refresh waited for a request held
+                                                                INSIDE the read lock; nothing ever waited, for a whole watchdog
+                                                                period, for a request held by a relay *)
     && (c_stress c || values_ok (c_url c) (c_init c) (combine sps (c_obs c))))).   (* answers come from the last good configuration *)
 
 Definition mismatches (cs : list case) : list N := failing_ids c_id agree cs.
@@ -181,15 +197,17 @@ Definition violations (cs : list case) : list N := failing_ids c_id P_b cs.
 (* what P_b = true means, at least *)
 Lemma P_b_sound (c : case) :
   P_b c = true -> gates_released (c_cmds c) = true ->
-  (forall o, In o (c_obs c) -> o_fin o = true) /\ c_lock_free c = true /\ c_crashed c = false /\ c_panics c = 0.
+  (forall o, In o (c_obs c) -> o_fin o = true) /\ c_lock_free c = true /\ c_crashed c = false /\ c_panics c = 0 /\
+  c_timeouts c = 0.
 Proof.
   unfold P_b. intros H Hg. rewrite Hg in H. cbn [negb orb] in H.
   apply andb_true_iff in H as [H H']. apply andb_true_iff in H as [H Hp]. apply andb_true_iff in H as [_ Hc].
-  apply andb_true_iff in H' as [H _]. apply andb_true_iff in H as [H1 H2].
-  split; [|split; [exact H2|split]].
+  apply andb_true_iff in H' as [H _]. apply andb_true_iff in H as [H Ht]. apply andb_true_iff in H as [H1 H2].
+  split; [|split; [exact H2|split; [|split]]].
   - rewrite forallb_forall in H1. exact H1.
   - destruct (c_crashed c); [discriminate|reflexivity].
   - apply Nat.eqb_eq. exact Hp.
+  - apply Nat.eqb_eq. exact Ht.
 Qed.
 
 (* a scenario on which the process died violates the property whatever else was observed *)
